@@ -240,3 +240,29 @@ def namespaced_paths_select_their_node(n1: int, l1: int, n2: int, l2: int, dflt:
         if len(got) != 1 or got[0].elem is not e:
             return False
     return True
+
+
+PI_TARGETS = ('pi', 'name', 'e', 'text', 'if', 'count', 'a', 'node', 'div', 'xml-stylesheet')
+
+
+@ob(budget=120, bound='lxml element with two processing instructions whose targets come from a table of 10 names that are also function, axis or '
+                      'operator names (indices chosen by the solver): the path of each PI is parsable and selects exactly that PI',
+    funcs=['elementpath/xpath1/_xpath1_functions.py:nud__pi_kind_test', N + ':ProcessingInstructionNode.path'])
+def pi_targets_named_like_functions(i: int, j: int) -> bool:
+    """
+    pre: 0 <= i <= 9 and 0 <= j <= 9
+    post: _
+    """
+    if LX is None:
+        return True
+    t1, t2 = PI_TARGETS[_pick(i, 9)], PI_TARGETS[_pick(j, 9)]
+    doc = LX.fromstring('<r><?%s x?><b/><?%s y?></r>' % (t1, t2)).getroottree()
+    ctx = XPathContext(doc)
+    nodes = [n for n in _walk(ctx.root) if isinstance(n, ProcessingInstructionNode)]
+    if len(nodes) != 2:
+        return False
+    for n in nodes:
+        got = L(P31.parse(n.path).evaluate(XPathContext(ctx.root)))
+        if len(got) != 1 or got[0] is not n:
+            return False
+    return True
